@@ -196,6 +196,8 @@ EXPORT errno_t _wcsfc_s_chk(wchar_t *restrict dest, rsize_t dmax,
                     }
 #endif
                     d = _decomp_s(tmpd, 8, cp1, false);
+                    if (unlikely(dmax < (rsize_t)(d ? d : 1)))
+                        goto too_small;
                     if (d) { /* decomp. max 4 */
                         memcpy(dest, tmpd, d * sizeof(wchar_t));
                         dest += d;
@@ -205,6 +207,8 @@ EXPORT errno_t _wcsfc_s_chk(wchar_t *restrict dest, rsize_t dmax,
                     }
                 }
             } else {
+                if (unlikely(dmax < (rsize_t)c))
+                    goto too_small;
                 memcpy(dest, tmp, c * sizeof(wchar_t));
                 dest += c;
                 dmax -= c;
@@ -232,6 +236,8 @@ EXPORT errno_t _wcsfc_s_chk(wchar_t *restrict dest, rsize_t dmax,
             } else if (unlikely(is_lithuanian)) {
                 /* I-Dot/J-Dot for Lithuanian, I-Dot for Turkish and Azeri.
                    http://unicode.org/reports/tr21/tr21-5.html#SpecialCasing */
+                if (unlikely(dmax < 3)) /* up to 3 characters are stored */
+                    goto too_small;
                 switch (*src) {
                 case 0xcc:
                     *dest++ = 0x69;
